@@ -21,6 +21,8 @@ def setup():
         if r.returncode: sys.exit(r.stderr)
     else:
         sh(f'git -C {REPO} checkout -q --detach && git -C {REPO} reset -q --hard $(git -C /repo rev-parse HEAD)')
+    if os.path.exists('/repo/Cargo.lock') and not os.path.exists(REPO + '/Cargo.lock'):
+        shutil.copy('/repo/Cargo.lock', REPO + '/Cargo.lock')
     os.makedirs(VERIF, exist_ok=True)
     sh(f"rsync -a --delete --exclude target --exclude .git --exclude replays --exclude evidence /verif/ {VERIF}/")
     p = VERIF + '/harness/Cargo.toml'
